@@ -106,6 +106,13 @@ pub closed spec fn spec_room_member(room: Room, key: Vec<u8>, date: i64) -> bool
     || exists|id: Uid| #[trigger] room.authorisations@.contains_key(id) && spec_member(room.authorisations@[id], key, date)
 }
 
+/// `key` was ever listed in the room (enabled or not): as an admin entry, or as user / user admin of some group
+pub closed spec fn spec_ever_listed(room: Room, key: Vec<u8>) -> bool {
+    (exists|k: Vec<u8>, i: int| #[trigger] room.admins@.contains_key(k) && 0 <= i < room.admins@[k]@.len() && (#[trigger] room.admins@[k]@[i]).verifying_key@ =~= key@)
+    || (exists|id: Uid| #[trigger] room.authorisations@.contains_key(id)
+            && (room.authorisations@[id].users@.contains_key(key) || room.authorisations@[id].user_admins@.contains_key(key)))
+}
+
 // ---- the representation invariant of history lists
 pub closed spec fn users_sorted(s: Seq<User>) -> bool {
     forall|i: int, j: int| 0 <= i <= j < s.len() ==> s[i].date <= s[j].date
